@@ -67,13 +67,14 @@ static void strreverse(char* begin, char* end)
 // slighly modified by DD to return target length
 F8API size_t modp_dtoa(double value, char* str, int prec) // DD
 {
-	/* if input is larger than thres_max, revert to exponential */
-    const double thres_max = (double)(0x7FFFFFFF);
+	/* if input is thres_max (2^31) or larger, revert to exponential; below it
+	   the whole part, also when rounded up, fits 32 unsigned bits */
+    const double thres_max = 2147483648.0;
 
     double diff = 0.0;
     char* wstr = str;
 	int neg = 0;
-	int whole = 0;
+	uint32_t whole = 0;
     double tmp = 0.0;
     uint32_t frac = 0;
 
@@ -108,12 +109,11 @@ F8API size_t modp_dtoa(double value, char* str, int prec) // DD
       normal printf behavior is to print EVERY whole number digit
       which can be 100s of characters overflowing your buffers == bad
     */
-    /* tested first: converting to int is undefined above INT_MAX, and so is
-       rounding INT_MAX up */
-    if (value > thres_max)
+    /* tested first: the conversion below is undefined for larger values */
+    if (value >= thres_max)
         return sprintf(str, "%e", neg ? -value : value); // DD
 
-    whole = (int) value;
+    whole = (uint32_t) value;
     tmp = (value - whole) * pow10_[prec];
     frac = (uint32_t)(tmp);
     diff = tmp - frac;
